@@ -249,6 +249,74 @@ class Check(PropertyCheck):
                                        "observed": out, "required": why}, found_input=True, signature="gateway:error-schedule")
                         break
         rep.cov["error_frame_schedules"] = nsched
+        # the earliest possible answer: the RSTACK is queued as a loop callback by the very write() that carries the RST
+        # (a loop-back / in-process NCP): the request completes; also 1 ms and 50 ms later
+        import asyncio
+        import ashref as _ar0
+        import ashrun as _ashrun
+        import bellows.ash as _ash
+        import bellows.uart as _uart
+        import vloop as _vl
+        nearly = 0
+        for delay in (None, 0.001, 0.05):
+            lp = _vl.VLoop()
+            asyncio.set_event_loop(lp)
+            _vl.patch_monotonic(_ash, lp)
+            res = {}
+            try:
+                class _App:
+                    def enter_failed_state(self, c):
+                        res.setdefault("failed", []).append(int(c))
+
+                    def frame_received(self, data):
+                        pass
+
+                    def connection_lost(self, exc):
+                        pass
+                gw = _uart.Gateway(_App())
+                proto = _ash.AshProtocol(gw)
+                tr = _ashrun.Recorder()
+                orig_write = tr.write
+
+                def write(data, _p=proto, _lp=lp, _d=delay):
+                    orig_write(data)
+                    if bytes(data).startswith(bytes([0x1A, 0xC0])):
+                        ans = _ar0.wire(("RSTACK", 2, 0x0B))
+                        if _d is None:
+                            _lp.call_soon(_p.data_received, ans)
+                        else:
+                            _lp.call_later(_d, _p.data_received, ans)
+                tr.write = write
+                proto.connection_made(tr)
+
+                async def req():
+                    try:
+                        await gw.reset()
+                        res["reset"] = "ok"
+                    except asyncio.TimeoutError:
+                        res["reset"] = "timeout"
+                    except BaseException as e:  # noqa
+                        res["reset"] = "raise:" + type(e).__name__
+                t = lp.create_task(req())
+                lp.settle()
+                guard = 0
+                while not t.done() and guard < 20:
+                    guard += 1
+                    lp.tick()
+                nearly += 1
+                if res.get("reset") != "ok" or res.get("failed"):
+                    rep.violation({"input": {"rstack_software_reset": "queued by the write() that carries the RST" if delay is None
+                                             else f"{delay} s after the RST"},
+                                   "observed": res, "required": "the reset request completes when the RSTACK with the software-reset "
+                                                                "code arrives"}, found_input=True, signature="gateway:earliest-rstack")
+                    break
+            except BaseException as e:  # noqa
+                rep.violation({"input": {"delay": delay}, "observed": repr(e), "required": "scenario runs"}, found_input=True,
+                              signature="gateway:earliest-rstack")
+                break
+            finally:
+                lp.close()
+        rep.cov["earliest_rstack_scenarios"] = nearly
         # both directions restart at zero after the handshake, also when a DATA frame of the host was still unacknowledged at
         # the reset and its acknowledgement arrives together with the RSTACK (one read / two consecutive callbacks): the
         # first DATA frame after the handshake carries frame number 0, from every prior value
